@@ -45,10 +45,10 @@ let bits64 x = Printf.sprintf "%016Lx" (Int64.bits_of_float x)
 let bits32 x = Printf.sprintf "%08lx" (Int32.bits_of_float x)
 let g17 x = Printf.sprintf "%.17g" x
 
+let fl = float_of_string
 type verdict = Exact of string | Near of float list * float list * float | Skip
 (* Near (expected, scale, tol): |got_k - expected_k| <= tol * scale_k + 1e-25 *)
 
-let fl = float_of_string
 let smat_of l = match l with
   | [a; b; c; d; e; f] -> { u11 = a; u22 = b; u33 = c; u12 = d; u13 = e; u23 = f }
   | _ -> failwith "smat"
@@ -57,7 +57,25 @@ let rec drop n l = if n = 0 then l else match l with [] -> [] | _ :: t -> drop (
 (* the C++ float path rounds its inputs to float; the generators only emit values exact in float *)
 let tol_double = 1e-9 and tol_float = 6e-5
 
-let fprime_handle : (string -> string list -> verdict option) ref = ref (fun _ _ -> None)
+(* ---- C17: f'' of the Cromer-Liberman model with IEEE doubles; table entries are floats in the library *)
+let to_float32 x = Int32.float_of_bits (Int32.bits_of_float x)
+let of_t (x : q) = to_float32 (float_of_q x)
+let m_f2 orbs e = cromer_f2 add mul div (fun a b -> a -. b) exp log abs_float float_of_q of_t (fun a b -> a < b)
+    (fun x -> to_float32 (log x)) orbs e
+let orb_cache = Hashtbl.create 100
+let orbs_of z = match Hashtbl.find_opt orb_cache z with
+  | Some o -> o
+  | None -> let o = orbitals_of fp_index fp_rows (zi z) in Hashtbl.add orb_cache z o; o
+let fprime_handle : (string -> string list -> verdict option) ref = ref (fun cmd w ->
+  match cmd, w with
+  | "fpp", [z; e] ->
+    (match orbs_of (int_of_string z) with
+     | Some orbs -> let v = m_f2 orbs (fl e) in Some (Near ([v], [abs_float v], 5e-6))   (* logf of the library is within 1 ulp(float) of the rounded log *)
+     | None -> Some (Exact "EXC"))
+  | "wfrow", [k] ->
+    let e = List.nth fp_index (int_of_string k) in
+    Some (Exact (if element_ok_b fp_rows e then "1" else "0"))
+  | _ -> None)
 
 let handle cmd args : verdict =
   let w = words args in
